@@ -2,7 +2,10 @@ package checks
 
 import (
 	"fmt"
+	"io"
 	"strings"
+	"testing/iotest"
+	"time"
 
 	"github.com/influxdata/influxql"
 	"verifharness/astx"
@@ -18,7 +21,7 @@ import (
 func init() { Registry["C16"] = checkC16 }
 
 var c16ws = []struct{ name, text string }{
-	{"tab", "\t"}, {"lf", "\n"}, {"cr", "\r"}, {"crlf", "\r\n"}, {"mixed", " \t\r\n \n"}, {"two-spaces", "  "},
+	{"tab", "\t"}, {"lf", "\n"}, {"cr", "\r"}, {"crlf", "\r\n"}, {"mixed", " \t\r\n \n"}, {"two-spaces", "  "}, {"crlf-cr", "\r\n\r"}, {"cr-crlf", "\r\r\n"}, {"crlf-crlf", "\r\n\r\n"},
 }
 
 var c16comments = []struct{ name, text string }{
@@ -67,6 +70,26 @@ func c16Gaps(c *Ctx, gc *GCase, local map[string]int64) {
 			} else if d := dumpOf(st); d != baseDump {
 				why = "AST changed: " + astx.FirstDiff(baseDump, d)
 			}
+			if why == "" && strings.Contains(repl, "\r") {
+				// line ends also as a reader delivers them in pieces: byte by byte,
+				// and in chunks that end after every CR
+				for ri, rd := range []io.Reader{iotest.OneByteReader(strings.NewReader(text)), &crChunkReader{s: text}} {
+					var q2 *influxql.Query
+					var err2 error
+					if p2, pv2, stk2 := mon.Try(func() { q2, err2 = influxql.NewParser(rd).ParseQuery() }); p2 {
+						d := det(fmt.Sprint(pv2))
+						d["stack"] = stk2
+						r.Violation("panic", d)
+						return
+					}
+					if err2 != nil {
+						why = fmt.Sprintf("read in pieces (reader %d: 0 byte by byte, 1 chunks ending after each CR) the edited text is rejected: %v", ri, err2)
+					} else if len(q2.Statements) != 1 || dumpOf(q2.Statements[0]) != baseDump {
+						why = fmt.Sprintf("read in pieces (reader %d) the AST changed", ri)
+					}
+					local["edits.read-in-pieces"]++
+				}
+			}
 			if why == "" {
 				local["edits.same-ast"]++
 				return
@@ -92,6 +115,81 @@ func c16Known(kind, name, prev, next string, toks []gen.Tok, idx int) string {
 	return ""
 }
 
+// c16State: "each statement identical to the result of parsing it alone" over
+// what a parser may remember from earlier statements of the same query: 35000
+// statements with two argument-less calls each and then one with nested calls;
+// a time zone written correctly and then, in a later statement, in another
+// letter case (alone, that statement is accepted or rejected - in the query it
+// gets the same treatment).
+func c16State(c *Ctx) {
+	r := c.R
+	{
+		one := "SELECT now(), count() FROM m WHERE time > now()"
+		last := "SELECT mean(f(g(x))), now() FROM m"
+		text := strings.Repeat(one+";", 35000) + last
+		q, err, pan, pv, stk := func() (q *influxql.Query, err error, pan bool, pv interface{}, stk string) {
+			pan, pv, stk = mon.Try(func() { q, err = influxql.ParseQuery(text) })
+			return
+		}()
+		r.Eval(1)
+		w1, _ := influxql.ParseStatement(one)
+		w2, _ := influxql.ParseStatement(last)
+		switch {
+		case pan:
+			r.Violation("panic", map[string]interface{}{"sub": "state", "input": "35000 x " + one + "; " + last, "why": fmt.Sprint(pv), "stack": stk})
+		case err != nil:
+			r.Violation("statement-differs-from-standalone-parse", map[string]interface{}{"sub": "state", "input": "35000 x " + one + "; " + last, "why": "every statement is accepted alone, the query is rejected: " + err.Error()})
+		case len(q.Statements) != 35001 || dumpOf(q.Statements[0]) != dumpOf(w1) || dumpOf(q.Statements[34999]) != dumpOf(w1) || dumpOf(q.Statements[35000]) != dumpOf(w2):
+			r.Violation("statement-differs-from-standalone-parse", map[string]interface{}{"sub": "state", "input": "35000 x " + one + "; " + last, "why": fmt.Sprintf("%d statements; the first, the 35000th or the last differs from its stand-alone parse", len(q.Statements))})
+		default:
+			r.Count("state.query-of-35001-statements", 1)
+		}
+	}
+	for _, z := range c04Zones {
+		if _, err := time.LoadLocation(z); err != nil || z == strings.ToLower(z) {
+			continue
+		}
+		for _, variant := range []string{strings.ToLower(z), strings.ToUpper(z)} {
+			good, other := "SELECT v FROM m TZ('"+z+"')", "SELECT v FROM m TZ('"+variant+"')"
+			for _, text := range []string{good + "; " + other, other + "; " + good, good + "; " + good + "; " + other} {
+				parts := strings.Split(text, "; ")
+				var q *influxql.Query
+				var err error
+				if p, pv, stk := mon.Try(func() { q, err = influxql.ParseQuery(text) }); p {
+					r.Violation("panic", map[string]interface{}{"sub": "state", "input": text, "why": fmt.Sprint(pv), "stack": stk})
+					return
+				}
+				r.Eval(1)
+				aloneOK := true
+				var alone []string
+				for _, p := range parts {
+					st, e := influxql.ParseStatement(p)
+					if e != nil {
+						aloneOK = false
+						break
+					}
+					alone = append(alone, dumpOf(st))
+				}
+				bad := ""
+				if aloneOK != (err == nil) {
+					bad = fmt.Sprintf("alone, all statements accepted = %v; the query: err = %v", aloneOK, err)
+				} else if err == nil {
+					for k := range parts {
+						if k >= len(q.Statements) || dumpOf(q.Statements[k]) != alone[k] {
+							bad = fmt.Sprintf("statement %d differs from its stand-alone parse", k+1)
+						}
+					}
+				}
+				if bad != "" {
+					r.Violation("statement-differs-from-standalone-parse", map[string]interface{}{"sub": "state", "input": text, "why": bad})
+					return
+				}
+				r.Count("state.zone-spelled-twice", 1)
+			}
+		}
+	}
+}
+
 func checkC16(c *Ctx) (string, bool, []string) {
 	r := c.R
 	rule := "(A) 2-5 (one case in forty: 65-700, cycling through 12) generated statements joined by ';' with random whitespace, empty statements and optional trailing ';' must parse to exactly those statements (each equal to its stand-alone parse); joined by whitespace only must be rejected. (B)+(C) for one statement per (kind, clause subset) and random payload statements: EVERY whitespace gap x 6 whitespace substitutions x 24 comment insertions (six of them two or three comments in one gap, the second starting in column 0) (block, starred block, banner and odd-star terminators, empty block, multi-line block, blocks whose text begins with a slash or holds comment openers, dashes or quotes, two adjacent blocks, line, empty line comment, line comments holding a block opener or more dashes, line on its own line, line+CRLF) is enumerated and the AST compared with the baseline. Non-trivial = edited text differs from baseline; distinct by edited text."
@@ -109,9 +207,12 @@ func checkC16(c *Ctx) (string, bool, []string) {
 			}
 		case "join":
 			c16Join(c, replayInt(c, "idx"), local)
+		case "state":
+			c16State(c)
 		}
 		return rule, false, assume
 	}
+	c16State(c)
 	// (B)+(C): exhaustive gaps over clause-subset statements
 	type job struct{ kind, mask int }
 	var jobs []job
